@@ -1215,6 +1215,27 @@ fn get_nonterminals_resolution_order(
         debug_assert!(path.is_empty());
     }
 
+    // Whatever is still unvisited is unreachable from any root, which means it lies on (or leads
+    // into) a cycle that the loop above had no way of entering.  Keep searching from there.
+    for vertex in dependency_graph.keys() {
+        if visited.contains(vertex) {
+            continue;
+        }
+        path.push((
+            *vertex,
+            nonterminal_definitions.get(vertex).unwrap().lhs_span,
+        ));
+        traverse_nonterminal_dependencies_dfs(
+            *vertex,
+            &dependency_graph,
+            &mut path,
+            &mut visited,
+            &mut result,
+        )?;
+        path.clear();
+        result.push(*vertex);
+    }
+
     // Filter out nonterminals that don't depend on any other as they are already fully resolved.
     result.retain(|vertex| {
         dependency_graph
